@@ -685,6 +685,30 @@ func TestC04(t *testing.T) {
 				}
 				c.Event("reread_after_application_write", 1)
 			}
+			// the same AVPs decoded one by one into one AVP value that the caller reuses (the
+			// public DecodeFromBytes): what an AVP is does not depend on what the value held before
+			{
+				var reused diam.AVP
+				m3, rerr3 := diam.ReadMessage(bytes.NewReader(wire), ctx.Parser)
+				off, k := 0, 0
+				for rerr3 == nil && off+8 <= len(body) && k < len(m3.AVP) {
+					l := int(body[off+5])<<16 | int(body[off+6])<<8 | int(body[off+7])
+					end := min(off+(l+3)&^3, len(body))
+					var derr error
+					if p, bad := guard(func() { derr = reused.DecodeFromBytes(body[off:end], h.App, ctx.Parser) }); bad || derr != nil {
+						c.Fail(sig("reused-avp"), wire, nil, "DecodeFromBytes into a reused AVP value, AVP %d of a message ReadMessage accepts: err=%v %s", k, derr, p)
+						return
+					}
+					w := m3.AVP[k]
+					if reused.Code != w.Code || reused.Flags != w.Flags || reused.VendorID != w.VendorID || reused.Length != w.Length || fmt.Sprintf("%T", reused.Data) != fmt.Sprintf("%T", w.Data) {
+						c.Fail(sig("reused-avp"), wire, nil, "AVP %d decoded into an AVP value that had held the AVP before it: code %d flags %#x vendor %d length %d data %T; ReadMessage reports code %d flags %#x vendor %d length %d data %T",
+							k, reused.Code, reused.Flags, reused.VendorID, reused.Length, reused.Data, w.Code, w.Flags, w.VendorID, w.Length, w.Data)
+						return
+					}
+					off, k = end, k+1
+				}
+				c.Event("avps_decoded_into_a_reused_value", k)
+			}
 			if c.WantSample() && facts.count > 2 && len(wire) < 200 {
 				c.Sample(map[string]any{"dict": ctx.Name, "wire": ev.Hex(wire), "avps_by_declared_length": facts.count, "classes": classes})
 			}
